@@ -136,7 +136,7 @@ fn world_for(c: &'static Coin, scripts: &[Vec<u8>], per_tx: usize) -> ChainBuild
     let mut txs = Vec::new();
     for (k, chunk) in scripts.chunks(per_tx).enumerate() {
         let outs = chunk.iter().enumerate().map(|(i, s)| TxOut { value: 1000 + (k * per_tx + i) as u64, script: s.clone() }).collect();
-        txs.push(Tx { version: 1, segwit: false, inputs: vec![TxIn::spend([0xee; 32], k as u32)], outputs: outs, locktime: 0 });
+        txs.push(Tx { version: 1, segwit: false, inputs: vec![TxIn::spend([0xee; 32], k as u32)], outputs: outs, locktime: 0, wide: 0 });
     }
     let half = txs.len() / 2;
     let second = txs.split_off(half);
@@ -213,7 +213,7 @@ pub fn run_c05_c06(prop: &str) -> Report {
                 for b in &reps {
                     for d in &reps {
                         let outs = [a, b, d].iter().enumerate().map(|(i, s)| TxOut { value: 1000 + (k as u64) * 3 + i as u64, script: (*s).clone() }).collect();
-                        txs.push(Tx { version: 1, segwit: false, inputs: vec![TxIn::spend([0xec; 32], k)], outputs: outs, locktime: k });
+                        txs.push(Tx { version: 1, segwit: false, inputs: vec![TxIn::spend([0xec; 32], k)], outputs: outs, locktime: k, wide: 0 });
                         k += 1;
                     }
                 }
@@ -277,14 +277,14 @@ pub fn run_c16() -> Report {
             for (k, chunk) in payloads.chunks(7).enumerate() {
                 let mut outs: Vec<TxOut> = chunk.iter().map(|(_, s)| TxOut { value: 0, script: s.clone() }).collect();
                 outs.insert(k % (outs.len() + 1), TxOut { value: 5, script: others[k % others.len()].clone() });
-                txs.push(Tx { version: 1, segwit: false, inputs: vec![TxIn::spend([0xee; 32], k as u32)], outputs: outs, locktime: 0 });
+                txs.push(Tx { version: 1, segwit: false, inputs: vec![TxIn::spend([0xee; 32], k as u32)], outputs: outs, locktime: 0, wide: 0 });
             }
             // one payload beyond 1 MiB (PUSHDATA4), between two ordinary payload outputs
             txs.push(Tx { version: 1, segwit: false, inputs: vec![TxIn::spend([0xee; 32], 7777)], outputs: vec![
                 TxOut { value: 0, script: script::op_return(b"before the big one") },
                 TxOut { value: 0, script: { let mut s = vec![0x6a]; s.extend(push_with(4, &vec![b'B'; 1_200_000])); s } },
                 TxOut { value: 0, script: script::op_return(b"after the big one") },
-            ], locktime: 0 });
+            ], locktime: 0, wide: 0 });
             let per = txs.len() / 3 + 1;
             for chunk in txs.chunks(per) {
                 let h = cb.next_height();
